@@ -152,3 +152,62 @@ def edge_must_err(b, sw, tgt):
         if t["t"] == "call" and t["dest"]["l"] == 0 and callee_names(t["func"])[0].endswith("FromResidual::from_residual"):
             return True
     return False
+
+
+def hyp_reach(b, starts, call_value, stop=()):
+    """blocks reachable from `starts` under a hypothesis about the results of some calls: `call_value(bi, term)` gives the
+    integer (bool) a call returns under the hypothesis, or None when the hypothesis says nothing. Plain locals holding known
+    constants are tracked per path through copies, `!`, and constant assignments; a switch on a known local follows one edge.
+    Abstract states are (block, known-constants) pairs, so the exploration is finite. Blocks in `stop` are reached, not left."""
+    stop = set(stop)
+    seen = set()
+    reached = set()
+    work = [(s, ()) for s in starts]
+    while work:
+        bi, envt = work.pop()
+        if (bi, envt) in seen:
+            continue
+        seen.add((bi, envt))
+        reached.add(bi)
+        if bi in stop:
+            continue
+        env = dict(envt)
+        for st in b.blocks[bi]["stmts"]:
+            if st["s"] != "assign":
+                continue
+            if st["pl"]["p"]:
+                continue
+            l = st["pl"]["l"]
+            rv = st["rv"]
+            v = None
+            if rv["r"] == "use":
+                o = rv["o"]
+                if o.get("k") == "const" and "int" in o:
+                    v = o["int"]
+                elif o.get("k") in ("copy", "move") and not o["pl"]["p"] and o["pl"]["l"] in env:
+                    v = env[o["pl"]["l"]]
+            elif rv["r"] == "un" and rv["op"] == "Not" and op_local(rv["a"]) in env and not rv["a"]["pl"]["p"]:
+                v = 1 - env[op_local(rv["a"])]
+            if v is None:
+                env.pop(l, None)
+            else:
+                env[l] = v
+        t = b.blocks[bi]["term"]
+        succ = b.succ[bi]
+        if t["t"] == "call":
+            d = t["dest"]
+            if not d["p"]:
+                v = call_value(bi, t)
+                if v is None:
+                    env.pop(d["l"], None)
+                else:
+                    env[d["l"]] = int(v)
+        elif t["t"] == "switch":
+            l = op_local(t["discr"])
+            if l is not None and not t["discr"]["pl"]["p"] and l in env:
+                tg = dict(t["targets"])
+                succ = [tg.get(env[l], t["otherwise"])]
+        nt = tuple(sorted(env.items()))
+        for s in succ:
+            work.append((s, nt))
+    return reached
